@@ -513,11 +513,22 @@ def evaluate(plan):
         return core.harness('C14 reference: ' + str(err))
 
     # ---- 3. submission history --------------------------------------
+    # A byte order mark at the very beginning of a text is no word: whether
+    # it travels to the proofreader or is split off before is not part of
+    # C14 (the reported positions are, and they are judged below on the text
+    # as it is in the file). Submitted texts are compared without it.
+    def nobom(t):
+        return t[1:] if t.startswith('\ufeff') else t
+    if any(nobom(sb['text']) != sb['text'] or not nobom(sb['text']).strip()
+           for sb in subs):
+        probes['bom_in_submission'] = 1
+    subs = [dict(sb, text=nobom(sb['text'])) for sb in subs
+            if nobom(sb['text']).strip()]
     want = []
     for ui, ((label, tex, eff), parts) in enumerate(zip(us, ref)):
         for lang, text in parts:
-            if text.strip():
-                want.append((ui, lang, text, eff))
+            if nobom(text).strip():
+                want.append((ui, lang, nobom(text), eff))
     if len(subs) != len(want):
         return viol('submissions:count', got=len(subs), want=len(want),
                     want_langs=[w[1] for w in want],
@@ -564,7 +575,14 @@ def evaluate(plan):
                 seen_opts.setdefault(('d', ui, why_), dd)
     for k, (sub, (ui, lang, text, eff)) in enumerate(zip(subs, want)):
         per_unit_subs[ui].append(sub)
-        if sub['text'] != text:
+        if us[ui][1].startswith('\ufeff'):
+            # with the mark split off, the text starts where the first
+            # paragraph starts: white space at the beginning of a part of
+            # such a file is not compared
+            same = sub['text'].lstrip() == text.lstrip()
+        else:
+            same = sub['text'] == text
+        if not same:
             return viol('submissions:text', k=k, got=sub['text'][:200],
                         want=text[:200])
         n = norm_submission(sub, len(expected_tail(eff)))
